@@ -8,7 +8,7 @@ W=/tmp/vb-$$
 trap 'git -C /repo worktree remove --force "$W" >/dev/null 2>&1; rm -rf "$W" /tmp/vb-$$.ev' EXIT
 git -C /repo worktree add --detach "$W" HEAD >/dev/null 2>&1 || exit 2
 (cd "$W" && git apply "$D/patch.diff") || { echo "patch does not apply"; exit 2; }
-cd /verif
+cd "$(dirname "$0")/.."
 bad=0
 for id in $ids; do
   out=$(VERIF_REPO=$W VERIF_EVIDENCE_DIR=/tmp/vb-$$.ev ./check $id quick 2>&1); rc=$?
